@@ -337,6 +337,51 @@ def fn_atom(name, *args):
     return Poly.sym(atom)
 
 
+# ordering facts valid at the program point being interpreted: list of
+# (small, big) polynomials with small <= big (set by the interpreter)
+ORDER_FACTS = []
+
+
+def known_le(a, b):
+    """Is a <= b known (syntactically, from bounds or from path facts)?"""
+    a, b = Poly.coerce(a), Poly.coerce(b)
+    if a == b:
+        return True
+    lb = lower_bound(b - a)
+    if lb is not None and lb >= 0:
+        return True
+    for s, g in ORDER_FACTS:
+        # a <= s <= g <= b
+        if (a == s or _triv_le(a, s)) and (g == b or _triv_le(g, b)):
+            return True
+    # a = min(..., b, ...)  or  b = max(..., a, ...)
+    if _is_fn(a, 'min') and any(isinstance(x, Poly) and x == b
+                                for x in _args(a)):
+        return True
+    if _is_fn(b, 'max') and any(isinstance(x, Poly) and x == a
+                                for x in _args(b)):
+        return True
+    return False
+
+
+def _triv_le(a, b):
+    lb = lower_bound(b - a)
+    return lb is not None and lb >= 0
+
+
+def _is_fn(p, name):
+    if len(p.t) != 1:
+        return False
+    (m, c), = p.t.items()
+    return c == 1 and len(m) == 1 and m[0][1] == 1 and \
+        isinstance(m[0][0], tuple) and m[0][0][0] == name
+
+
+def _args(p):
+    (m, c), = p.t.items()
+    return m[0][0][1:]
+
+
 def pmin(a, b):
     a, b = Poly.coerce(a), Poly.coerce(b)
     if a == b:
@@ -344,7 +389,10 @@ def pmin(a, b):
     ca, cb = a.const_value(), b.const_value()
     if ca is not None and cb is not None:
         return a if ca <= cb else b
-    # min(1, x) == 1 for x >= 1 sizes is NOT assumed here (x may be 0-able)
+    if known_le(a, b):
+        return a
+    if known_le(b, a):
+        return b
     r = fn_atom('min', a, b)
     return r
 
@@ -356,16 +404,86 @@ def pmax(a, b):
     ca, cb = a.const_value(), b.const_value()
     if ca is not None and cb is not None:
         return a if ca >= cb else b
+    if known_le(a, b):
+        return b
+    if known_le(b, a):
+        return a
     return fn_atom('max', a, b)
 
 
 def definitely_differ(p, q):
-    """True iff p != q for some admissible valuation of free symbols, and the
-    difference mentions free symbols / constants only."""
+    """True iff p != q for some admissible input.
+
+    * a non-zero difference over free symbols / constants differs for some
+      valuation (free symbols are independent positive integers);
+    * ``join(a, b, ...)`` takes each alternative on some feasible path and
+      ``min / max`` takes each argument for some ordering of the inputs: the
+      difference is expanded by substituting one alternative for *every*
+      occurrence of the atom (consistent choice) and re-tested;
+    * any other opaque atom (fresh data dependent counts, floordiv, ...)
+      makes the answer "unknown" (False).
+    """
     d = Poly.coerce(p) - Poly.coerce(q)
     if d.is_zero():
         return False
-    return d.all_free()
+    if not EXPAND[0]:
+        # default: only differences over free symbols are violations
+        return d.all_free()
+    budget = [48]
+    return _exists_nonzero(d, budget)
+
+
+# Expansion of join / min / max atoms is switched on only by targeted rules
+# (see engine.Analysis.run(opts={'expand': True})) whose entry functions were
+# confirmed by reading to have no hidden ordering precondition.
+EXPAND = [False]
+
+
+def _exists_nonzero(d, budget):
+    if d.is_zero():
+        return False
+    budget[0] -= 1
+    if budget[0] < 0:
+        return False
+    opaque = [a for a in d.atoms() if not _is_free(a)]
+    if not opaque:
+        return True
+    exp = [a for a in opaque if isinstance(a, tuple) and a and
+           a[0] in ('join', 'min', 'max')]
+    if not exp or len(exp) != len(opaque):
+        return False
+    # correlated alternatives: two different join atoms may stem from the
+    # same branch decision, so only a single join atom is ever expanded
+    joins = [a for a in exp if a[0] == 'join']
+    if len(joins) > 1 or len(exp) > 3:
+        return False
+    # expand the outermost (deepest-nesting) expandable atom first
+    a = max(exp, key=atom_depth)
+    alts = [x for x in a[1:] if isinstance(x, Poly)]
+    for i, alt in enumerate(alts):
+        if a[0] in ('min', 'max') and not _feasible(a[0], alt, alts, i):
+            continue
+        if _exists_nonzero(d.subs({a: alt}), budget):
+            return True
+    return False
+
+
+def _feasible(kind, alt, alts, i):
+    """Can ``alt`` be the min (max) of ``alts`` for some input?  Refuted only
+    when another alternative is provably smaller (larger)."""
+    for j, other in enumerate(alts):
+        if j == i:
+            continue
+        diff = (alt - other) if kind == 'min' else (other - alt)
+        lb = lower_bound(diff)
+        if lb is not None and lb > 0:
+            return False
+        # refuted by a path fact  other <= alt (min)  /  alt <= other (max)
+        if kind == 'min' and known_le(other, alt) and other != alt:
+            return False
+        if kind == 'max' and known_le(alt, other) and other != alt:
+            return False
+    return True
 
 
 def same(p, q):
